@@ -123,6 +123,18 @@ inline void emit(const json& j) {
   std::cout.flush();
 }
 
+inline std::string digest_of(const Theo::CodegenResult& cr) {
+  json j = {{"ok", cr.generated_correctly}, {"prog", dump_program(cr.code)}, {"requests", cr.file_requests}};
+  json errs = json::array();
+  for (auto& e : cr.errors) errs.push_back({(int)e.t, e.message, e.file, e.line});
+  j["errors"] = errs;
+  std::string s = j.dump();
+  // FNV-1a 64 over the serialisation, plus its length: equal digests <=> identical results for all practical purposes
+  unsigned long long h = 1469598103934665603ULL;
+  for (unsigned char c : s) { h ^= c; h *= 1099511628211ULL; }
+  return std::to_string(h) + ":" + std::to_string(s.size());
+}
+
 typedef int (*cmd_fn)(int, char**);
 struct Registry {
   static std::map<std::string, cmd_fn>& get() { static std::map<std::string, cmd_fn> m; return m; }
